@@ -968,3 +968,36 @@ Proof.
   destruct (H c Hin) as [v [Hv Hf]]. rewrite Hl in Hv. inversion Hv. subst v.
   unfold value_fits in Hf. congruence.
 Qed.
+
+(* ===================================================================================== *)
+(* round 6: what an operation reported is not changed by later operations                 *)
+
+Lemma run_app : forall es f more,
+  snd (run f (es ++ more)) = snd (run f es) ++ snd (run (fst (run f es)) more).
+Proof.
+  induction es as [|e es IH]; intros f more.
+  - reflexivity.
+  - cbn [app]. rewrite !run_cons. cbn [fst snd app]. rewrite IH. reflexivity.
+Qed.
+
+Lemma srun_app : forall ops st more,
+  snd (srun st (ops ++ more)) = snd (srun st ops) ++ snd (srun (fst (srun st ops)) more).
+Proof.
+  induction ops as [|op ops IH]; intros st more.
+  - reflexivity.
+  - cbn [app]. rewrite !srun_cons. cbn [fst snd app]. rewrite IH. reflexivity.
+Qed.
+
+Lemma outcomes_are_final :
+  (forall f es more, firstn (length es) (snd (run f (es ++ more))) = snd (run f es)) /\
+  (forall st ops more, firstn (length ops) (snd (srun st (ops ++ more))) = snd (srun st ops)).
+Proof.
+  split.
+  - intros f es more. rewrite run_app.
+    assert (L : length (snd (run f es)) = length es) by (apply (history_rows es f)).
+    rewrite <- L. rewrite firstn_app, Nat.sub_diag, firstn_O, app_nil_r. apply firstn_all.
+  - intros st ops more. rewrite srun_app.
+    assert (L : forall ops st, length (snd (srun st ops)) = length ops).
+    { induction ops0 as [|op ops0 IH]; intros st0; [reflexivity|]. rewrite srun_cons. cbn [snd length]. rewrite IH. reflexivity. }
+    rewrite <- (L ops st). rewrite firstn_app, Nat.sub_diag, firstn_O, app_nil_r. apply firstn_all.
+Qed.
